@@ -599,7 +599,14 @@ static int run_case(void)
       }
       i += 2; continue;
     }
-    if(!strcmp(o, "H")) { if(win_ok(A(1))) tickit_window_hide(hw[A(1)].win); i += 2; continue; }
+    if(!strcmp(o, "H")) {
+      if(win_ok(A(1))) {
+        SEP(); printf("HI W=%d U=", A(1)); print_tree(root);
+        tickit_window_hide(hw[A(1)].win);
+        printf(" T="); print_tree(root);
+      }
+      i += 2; continue;
+    }
     if(!strcmp(o, "R"))  { if(win_ok(A(1))) tickit_window_raise(hw[A(1)].win); i += 2; continue; }
     if(!strcmp(o, "RF")) { if(win_ok(A(1))) tickit_window_raise_to_front(hw[A(1)].win); i += 2; continue; }
     if(!strcmp(o, "L"))  { if(win_ok(A(1))) tickit_window_lower(hw[A(1)].win); i += 2; continue; }
